@@ -4,8 +4,9 @@ Driver for C18.  One request per line, fields separated by `|`, tokens inside a 
   R|<ty1>|<ty2>                  → `restr=<0|1> flat=<0|1>`
         is_sequence_type_restriction(ty1, ty2) by the model; flat = both types are in the region where
         the string-driven code and the AST agree by construction (see `Ty.flat`)
-  J|<xsd11 0/1>|<ty>|<value>     → `match=<r> inst=<r> spec=<T|F|-> fd=<0|1> fi=<0|1> dom=<0|1>`
-        r = T | F | E:<code>;  match = match_sequence_type, inst = `instance of` (= `treat as`),
+  J|<xsd11 0/1>|<ty>|<value>     → `match=<r> inst=<r> treat=<r> spec=<T|F|-> fd=<0|1> fi=<0|1> dom=<0|1> fp=<0|1>`
+        r = T | F | E:<code>;  match = match_sequence_type, inst = `instance of`, treat = `treat as`
+        (T = the operand is returned, F = XPDY0050),
         spec = SequenceType matching of XPath 3.1 with the model's restriction as subtype relation
         (`-` when the type uses a name that is no atomic type: static error, not modelled by the spec);
         fd = trigger of finding F18d (kind tests evaluated as self-axis steps by `instance of`),
@@ -24,6 +25,7 @@ Token syntax (Polish notation):
 -/
 import EPV.Proto
 import EPV.Spec.XPathTypes
+import EPV.Lemmas.SeqTypeSpec
 import EPV.Gen.C18Tables
 open EPV.Proto EPV.SeqType
 
@@ -127,7 +129,11 @@ def answer (line : String) : String :=
       let m := matchSt tables xsd11 true ty val
       let i := instanceOf tables xsd11 ty val
       let sp := if ty.atomicNamesOnly then (if specMatch (specTables xsd11) (isRestriction tables) ty val then "T" else "F") else "-"
-      s!"match={showRes m} inst={showRes i} spec={sp} fd={b01 (trigF18d ty val)} fi={b01 (trigF18i ty val)} dom={b01 (inDomain ty val)} fp={b01 ty.parserGap}"
+      let tr := match treatAs tables xsd11 ty val with
+        | .ok w => if w.length == val.length then "T" else "DIFF"
+        | .error .XPDY0050 => "F"
+        | .error e => showRes (.error e)
+      s!"match={showRes m} inst={showRes i} treat={tr} spec={sp} fd={b01 (trigF18d ty val)} fi={b01 (trigF18i ty val)} dom={b01 (domT ty val)} fp={b01 ty.parserGap}"
     | _, _ => "bad-judgement"
   | _ => "bad-line"
 
